@@ -452,6 +452,8 @@ public:
   ///\pre op must be diagonal
   ///\returns An object convertible to an SU_vector
   detail::EvolutionProxy Evolve(const SU_vector& op, double time) const{
+    if(size!=op.size)
+      throw std::runtime_error("Non-matching dimensions in SU_vector evolution");
     return(detail::EvolutionProxy{op,*this,time});
   }
   
